@@ -537,4 +537,11 @@ func main() {
 		s.run(40 + rng.Intn(80))
 		s.emit()
 	}
+	nM := 12
+	if gen.Thorough() {
+		nM = 120
+	}
+	for i := 0; i < nM; i++ {
+		multiScenario(rng, 2+rng.Intn(2), rng.Intn(2) == 0, 120+rng.Intn(120))
+	}
 }
